@@ -263,8 +263,10 @@ PROPS.update({
     level_text='Theorems C02.even_generation_is_complete (writer invariant over every history incl. crashes/restarts), accept_consistent (an accepted attempt copied exactly the record as of its first generation message, provided fewer than 32767 updates completed between its two generation reads), no_mixture / no_mixture_general (every returned record is the empty one, the pre-existing one or one passed to write) for every annotation satisfying Ann.adequate. The annotation is observed from the real code on every run; ~1500 seeded schedules (incl. stale reads and crashes) are executed on the real code and replayed by the model token by token.',
     level_note='Partial: the racy record copy is modelled as per-cell relaxed atomics; hardware is represented by the C11 RA semantics; the 16-bit ABA (32767 updates inside one read attempt) is excluded by hypothesis and recorded as known finding K1.',
  ),
- 'C03': sl_entry('C03', lambda c: 'calls2' in c.tags and ('pubs2' in c.tags or 'catchup' in c.tags),
-    "non-trivial = a reader makes >= 2 calls while >= 2 publications complete, or a quiescent fresh call checks the catch-up clause (tags calls2+pubs2, catchup)",
+ 'C03': sl_entry('C03', lambda c: ('calls2' in c.tags and ('pubs2' in c.tags or 'catchup' in c.tags)) or 'longSkip' in c.tags or 'wrap' in c.tags,
+    "plus `skip` lines: a real reader attached at generation g0 sleeps through n real publications (n up to 65535, incl. 16384, 32766, 32767 (the documented exception), 32768, across the 16-bit wrap and from an odd start) and then calls twice, sequentially. non-trivial = a reader makes >= 2 calls while >= 2 publications complete, or a quiescent fresh call checks the catch-up clause, or a skip of >= 16384 publications / across the wrap (tags calls2+pubs2, catchup, longSkip, wrap)",
+    gens=lambda seed, th: [['slgen', seed, 40000 if th else 1500], ['skipgen', 'all'] if th else ['skipgen']],
+    relevant=lambda c: kind(c) in ('sl', 'skip'),
     lean_modules=['ClockBound.Properties.C03', 'ClockBound.Properties.C03b'],
     technique='Lean 4 proof: coherence-based monotonicity invariant over all executions + catch-up theorem for fresh reads on a quiescent log + generation potential function for the 32767 exception; same schedule-level correspondence as C02',
     level_text='Theorems C03.accepted_monotone / cache_is_accepted_publication (the generation message behind a reader\'s cached snapshot never moves backwards), catches_up (no update in flight + fresh reads + cached generation differs => the call returns the latest completed publication), same_generation_serves_cache and equal_generation_same_message (the documented exception needs >= 32767 completed updates).',
